@@ -13,12 +13,14 @@ RULE = ("files written from generated Datasets (as in C19); block 'read': for ev
         "'write': random sequences of on-disk assignments (label / position; scalar / array / DimArray RHS) interleaved with reads vs the "
         "same put sequence in memory; block 'unlimited': appends beyond the end of an unlimited dimension with labelled DimArrays; block "
         "'multi': read_nc([f1,f2(,f3)], axis=new|existing, keys, align, sort) vs stack_ds / concatenate_ds of the single reads. "
-        "class = (block, variable kind, ndim, index kinds, spelling)")
+        "block 'crossvar': pieces read through the handle from one variable assigned through the handle to another one, where some variables "
+        "were created with a fill value of their own, hold missing cells, and one variable's marker is an ordinary value in the others, vs the "
+        "same reads and assignments on the loaded arrays. class = (block, variable kind, ndim, index kinds, spelling)")
 ANCHORS = ["nc.read", "nc.write", "nc._getvalues_ortho", "nc._setvalues_ortho", "nc._getaxes_ortho", "nc.__getitem__", "nc._read_multinc"]
 # entry points the workload calls itself; the other anchors are helpers behind them (counted as evidence only)
 ANCHORS_REQUIRED = ["nc.__getitem__"]
 FLOORS = {"quick": {"evaluations": 600, "distinct": 300, "outcome:ondisk-reads-compared": 2500, "outcome:ondisk-writes": 500,
-                    "outcome:unlimited-appends": 100, "outcome:multifile-reads": 100},
+                    "outcome:unlimited-appends": 100, "outcome:multifile-reads": 100, "outcome:ondisk-crossvar-assignments": 150},
           "thorough": {"evaluations": 12000, "distinct": 1500}}
 ASSUMPTIONS = ["netCDF behaviour is that of the vendored stand-in (vp/standins/netCDF4); a violation is reported only if it reproduces "
                "under all 8 stand-in quirk combinations"]
@@ -26,7 +28,7 @@ ASSUMPTIONS = ["netCDF behaviour is that of the vendored stand-in (vp/standins/n
 
 def shards(tier, seed, scale=1.0):
     out = []
-    for blk, q, t, n in (("read", 560, 8000, 7), ("write", 400, 5000, 4), ("unlimited", 120, 2000, 2), ("multi", 330, 3000, 3)):
+    for blk, q, t, n in (("read", 560, 8000, 7), ("write", 400, 5000, 4), ("unlimited", 120, 2000, 2), ("multi", 330, 3000, 3), ("crossvar", 160, 2500, 2)):
         o = common.rand_shards(ID, tier, seed, scale, q, t, nshards=n)
         for d in o:
             d["block"] = blk
@@ -538,7 +540,123 @@ def multi_body(case, ctx, tmp):
     return [('multi', mode, nf, var is not None, keys is not None, fmt)]
 
 
-BODIES = {"read": read_body, "write": write_body, "unlimited": unlimited_body, "multi": multi_body}
+def crossvar_body(case, ctx, tmp):
+    """pieces read through the handle from one variable are assigned, through the handle, to another variable (or to another place of
+    the same one); some variables were created with a fill value of their own and hold missing cells, and the marker value of one
+    variable is an ordinary value in the others.  Reference: the same reads and assignments on the loaded arrays."""
+    import random
+    da = __import__("vp.boot", fromlist=["boot"]).boot()
+    rng = random.Random(case["seed"])
+    fn = os.path.join(tmp, "x.nc")
+    fmt = case["fmt"]
+    nd = rng.choice([1, 2, 2, 3])
+    dims = rng.sample(gen.DIMS[:4], nd)
+    labs = [gen.labels(rng, rng.randint(2, 4), rng.choice('if'), rng.choice(['inc', 'dec', 'shuf'])) for _ in dims]
+    shape = tuple(len(l) for l in labs)
+    markers = rng.sample([-1., -999., 0., 9999., 1e20], 2)
+    pool = markers + [1.5, 2., -0.5, 7., 3.25]
+    names = rng.sample(['anom', 'count', 'flux', 'prec'], rng.randint(2, 3))
+    created = {}
+    fills = {}
+    f = da.open_nc(fn, mode='w', format=fmt)
+    try:
+        # the dimensions first, so that a variable's fill value is not handed to the coordinate variables it would otherwise create
+        for d, l in zip(dims, labs):
+            f.axes.append(da.Axis(gen.np_labels(l, gen.kind_of(l)), d))
+        for j, k in enumerate(names):
+            vals = np.array([rng.choice(pool) for _ in range(int(np.prod(shape)))], dtype=float).reshape(shape)
+            if rng.random() < 0.5:
+                vals.flat[rng.randrange(vals.size)] = np.nan
+            arr = da.DimArray(vals, axes=[da.Axis(gen.np_labels(l, gen.kind_of(l)), d) for d, l in zip(dims, labs)])
+            how = rng.choice(['plain', 'fill', 'fill']) if j else 'fill'
+            if how == 'fill':
+                fv = markers[j % 2]
+                f.write(k, arr, fill_value=fv)
+            else:
+                f[k] = arr
+            created[k] = how
+            fills[k] = fv if how == 'fill' else None
+    finally:
+        f.close()
+    mem = da.read_nc(fn)
+    classes = []
+    f = da.open_nc(fn, mode='a')
+    try:
+        n0 = shape[0]
+        for step in range(rng.randint(2, 5)):
+            src = rng.choice(names)
+            dst = rng.choice([k for k in names if k != src] + ([src] if rng.random() < 0.2 else []))
+            mode = rng.choice(['label', 'position'])
+            if nd == 1 or rng.random() < 0.4:
+                kk = rng.randint(1, n0)
+                p1 = rng.sample(range(n0), kk)
+                p2 = sorted(rng.sample(range(n0), kk))     # assignments through list indices: increasing positions, as in block 'write'
+                i1 = [labs[0][p] for p in p1] if mode == 'label' else p1
+                i2 = [labs[0][p] for p in p2] if mode == 'label' else p2
+                ik = 'list'
+            else:
+                p1, p2 = rng.randrange(n0), rng.randrange(n0)
+                i1 = labs[0][p1] if mode == 'label' else p1
+                i2 = labs[0][p2] if mode == 'label' else p2
+                ik = 'scalar'
+            if mode == 'label':
+                rd, rdm = (lambda: f[src][i1]), (lambda: mem[src][i1])
+                def wr(v): f[dst][i2] = v
+                def wrm(v): mem[dst][i2] = v
+            else:
+                rd, rdm = (lambda: f[src].ix[i1]), (lambda: mem[src].ix[i1])
+                def wr(v): f[dst].ix[i2] = v
+                def wrm(v): mem[dst].ix[i2] = v
+            label = "open_nc(f)[%r]%s[%s] = open_nc(f)[%r]%s[%s] (%s; created %s; dim %r labels %s)" % (
+                dst, '' if mode == 'label' else '.ix', codec.short(i2, 40), src, '' if mode == 'label' else '.ix', codec.short(i1, 40),
+                mode, codec.short(created, 80), dims[0], codec.short(labs[0], 60))
+            piece, exc = ctx.call("read for " + label, rd, operands=())
+            try:
+                piece_m = rdm()
+            except Exception as ex:
+                piece_m = ex
+            ctx.outcomes['ondisk-reads-compared'] += 1
+            if exc is not None and isinstance(piece_m, Exception):
+                continue
+            if exc is not None or isinstance(piece_m, Exception) or not same_result(piece, piece_m):
+                ctx.v(ID, "crossvar:read", "read for %s: on disk %s, loaded array %s" % (label, repr(exc) if exc is not None else common.brief_res(piece), common.brief_res(piece_m) if not isinstance(piece_m, Exception) else repr(piece_m)))
+                break
+            pv_ = np.asarray(piece_m.values if common.is_da(piece_m) else piece_m, dtype=float)
+            if fills[dst] is not None and np.any(pv_ == fills[dst]):
+                # a cell equal to the target variable's own fill value IS a missing cell in a netCDF file: not a difference the library makes
+                ctx.outcomes['crossvar-skipped:piece-holds-target-fill-value'] += 1
+                continue
+            _, wexc = ctx.call(label, lambda: wr(piece), operands=common.array_args(piece))
+            try:
+                wrm(piece_m)
+                mexc = None
+            except Exception as ex:
+                mexc = ex
+            ctx.outcomes['ondisk-crossvar-assignments'] += 1
+            if (wexc is None) != (mexc is None):
+                ctx.v(ID, "crossvar:exc-parity", "%s: on disk %r vs in memory %r" % (label, wexc, mexc))
+                break
+            bad = False
+            for k in names:
+                g, rexc = ctx.call("open_nc(f)[%r][:] after %s" % (k, label), lambda: f[k][:], operands=())
+                if rexc is not None or not same_result(g, mem[k]):
+                    ctx.v(ID, "crossvar:" + ("target" if k == dst else "other-variable"), "after %s the file's %r reads %s, the same assignment on the loaded arrays gives %s" % (
+                        label, k, common.brief_res(g) if rexc is None else repr(rexc), common.brief_res(mem[k])))
+                    bad = True
+                    break
+            if bad:
+                break
+            classes.append(('crossvar', nd, mode, ik, created[src], created[dst], src == dst))
+    finally:
+        f.close()
+    final = da.read_nc(fn)
+    for k in names:
+        if not same_result(final[k], mem[k]):
+            ctx.v(ID, "crossvar:final", "after the cross-variable assignments the re-read file's %r = %s differs from the in-memory result %s" % (k, common.brief_res(final[k]), common.brief_res(mem[k])))
+    return classes
+
+
+BODIES = {"read": read_body, "write": write_body, "unlimited": unlimited_body, "multi": multi_body, "crossvar": crossvar_body}
 
 
 def check(case, ctx):
